@@ -33,7 +33,9 @@ Single == [x \in {47, 91, 93, 123, 125, 61, 44, 35, 9839, 98, 9837, 95, 82, 67, 
               [] x = 95 -> "UNDERSCORE" [] x = 82 -> "REST" [] OTHER -> "SYLLABLE"]
 
 LexInit == [pos |-> 0, sym |-> FALSE, meta |-> FALSE, toks |-> <<>>, done |-> FALSE, err |-> FALSE, skipped |-> 0]
-Tok(s, t, from, to) == [t |-> t, v |-> SubSeq(s, from + 1, to)]
+\* a token also remembers where it starts (the end of the previous token: trivia before a token belongs to its span) and ends
+LastEnd(st) == IF st.toks = <<>> THEN 0 ELSE st.toks[Len(st.toks)].end
+TokAt(s, st, t, from, to) == [t |-> t, v |-> SubSeq(s, from + 1, to), start |-> LastEnd(st), end |-> to]
 \* one token request
 ScanStep(s, st) ==
   LET p == RunEnd(s, st.pos, IsSpaceC)           \* leading white space is trivia in every mode
@@ -41,26 +43,32 @@ ScanStep(s, st) ==
       skip == st.skipped + (p - st.pos)
   IN
   IF st.meta /\ IsMetaRune(c)
-  THEN LET q == RunEnd(s, p, IsMetaRune) IN [st EXCEPT !.pos = q, !.toks = Append(@, Tok(s, "METADATA", p, q)), !.skipped = skip]
+  THEN LET q == RunEnd(s, p, IsMetaRune) IN [st EXCEPT !.pos = q, !.toks = Append(@, TokAt(s, st, "METADATA", p, q)), !.skipped = skip]
   ELSE IF st.sym
   THEN IF IsSymbolRune(c)
        THEN LET q == RunEnd(s, p, IsSymbolRune) IN
-            [st EXCEPT !.pos = q, !.sym = FALSE, !.toks = Append(@, Tok(s, "SYMBOL", p, q)), !.skipped = skip]
+            [st EXCEPT !.pos = q, !.sym = FALSE, !.toks = Append(@, TokAt(s, st, "SYMBOL", p, q)), !.skipped = skip]
        ELSE [st EXCEPT !.pos = p, !.done = TRUE, !.err = TRUE, !.skipped = skip]       \* `_` without a symbol
   ELSE IF c = 59                                      \* ; comment: up to, not including, the newline (or the end)
   THEN LET q == RunEnd(s, p, LAMBDA x : x # 10 /\ x # EOFc) IN [st EXCEPT !.pos = q, !.skipped = skip + (q - p)]
   ELSE IF c \in DOMAIN Single
-  THEN [st EXCEPT !.pos = p + 1, !.toks = Append(@, Tok(s, Single[c], p, p + 1)), !.skipped = skip,
+  THEN [st EXCEPT !.pos = p + 1, !.toks = Append(@, TokAt(s, st, Single[c], p, p + 1)), !.skipped = skip,
                   !.sym = (c = 95) \/ @,
                   !.meta = IF c = 123 THEN TRUE ELSE IF c = 125 THEN FALSE ELSE @]
   ELSE IF IsDigitC(c)
-  THEN LET q == RunEnd(s, p, IsDigitC) IN [st EXCEPT !.pos = q, !.toks = Append(@, Tok(s, "NUMBER", p, q)), !.skipped = skip]
+  THEN LET q == RunEnd(s, p, IsDigitC) IN [st EXCEPT !.pos = q, !.toks = Append(@, TokAt(s, st, "NUMBER", p, q)), !.skipped = skip]
   ELSE IF IsSymbolRune(c)
-  THEN LET q == RunEnd(s, p, IsSymbolRune) IN [st EXCEPT !.pos = q, !.toks = Append(@, Tok(s, "SYMBOL", p, q)), !.skipped = skip]
+  THEN LET q == RunEnd(s, p, IsSymbolRune) IN [st EXCEPT !.pos = q, !.toks = Append(@, TokAt(s, st, "SYMBOL", p, q)), !.skipped = skip]
   ELSE [st EXCEPT !.pos = p, !.done = TRUE, !.skipped = skip, !.err = (c # EOFc)]       \* end of input
 
 RECURSIVE LexFrom(_, _)
 LexFrom(s, st) == IF st.done THEN st ELSE LexFrom(s, ScanStep(s, st))
 Lex(s) == LexFrom(s, LexInit)
+\* source position after p consumed runes: <<line (from 1), column (runes since the last newline), offset (UTF-8 bytes)>>
+Utf8Len(c) == IF c < 128 THEN 1 ELSE IF c < 2048 THEN 2 ELSE IF c < 65536 THEN 3 ELSE 4
+PosAfter(s, p) == LET nl == {i \in 1..p : s[i] = 10}
+                      last == IF nl = {} THEN 0 ELSE CHOOSE i \in nl : \A j \in nl : j <= i
+                      RECURSIVE B(_)  B(i) == IF i > p THEN 0 ELSE Utf8Len(s[i]) + B(i + 1)
+                  IN <<1 + Cardinality(nl), p - last, B(1)>>
 TokTypes(toks) == [i \in 1..Len(toks) |-> toks[i].t]
 =============================================================================
